@@ -1780,7 +1780,9 @@ class Inliner:
                         if means_it:  # (a local variable that happens to share the name is not a use)
                             used = True
                     elif isinstance(n, ast.Attribute) and n.attr == name and isinstance(n.ctx, ast.Load):
-                        used = True
+                        # (a method of the same name on another module's class — `self._route_message` in another carrier — is not a use)
+                        if fi.cls is None or m is fi.module or not (isinstance(n.value, ast.Name) and n.value.id in ("self", "cls")):
+                            used = True
                     elif isinstance(n, ast.alias) and n.name == name:
                         named = True
                     elif isinstance(n, ast.Constant) and n.value == name:
